@@ -31,11 +31,12 @@ func newDiffState(oldMast *Mast, newMast *Mast) *diffState {
 	var dc diffState
 	dc.alreadyNotifiedOldLink = map[uint8]interface{}{}
 	dc.alreadyNotifiedNewLink = map[uint8]interface{}{}
+	// pushLink skips the nil root of an emptied tree
 	if oldMast != nil {
 		dc.oldMast = oldMast
-		dc.oldStack = newIterItemStack(iterItem{considerLink: oldMast.root})
+		dc.oldStack.pushLink(oldMast.root)
 	}
-	dc.newStack = newIterItemStack(iterItem{considerLink: newMast.root})
+	dc.newStack.pushLink(newMast.root)
 	return &dc
 }
 
